@@ -22,6 +22,27 @@ MISSED_FIRST = {
  "C12-5": "no variable holding an empty tuple -> added to the random contexts",
  "C14-6": "variable and function names never overlapped; renaming always renamed both namespaces -> overlapping names, unbound variable + same-named function, per-namespace renaming",
  "C15-5": "workload used 6 distinct builtins -> two expressions with 16 distinct builtins each",
+ "C01-7": "errors were Display-formatted only with short ASCII payloads -> new phase: 19 constructed + 19 evaluated errors around every pool value and long non-ASCII strings in all byte alignments",
+ "C02-7": "every rendering was single-spaced -> every token sequence / AST is also judged in its tightest rendering",
+ "C02-8": "NOT CAUGHT BY DESIGN: it only rejects forms the property lists as not claimed (`a + b = c`, `a = b += c`)",
+ "C03-7": "NOT CAUGHT BY DESIGN: `MIN % -1` yielding 0 is one of the two readings the oracle accepts (mathematically exact result vs overflow of the defining division)",
+ "C05-7": "sequence nesting never exceeded ~12 levels -> phase with 10-60 levels of sequences nested in open sequences",
+ "C05-8": "programs ran only on explicit contexts -> every well-formed sequence also through the context-free eval()",
+ "C05-9": "no typed tuple entry point in C05 -> Node::eval_tuple_with_context_mut / eval_tuple_with_context_mut alternate, effects and final context compared",
+ "C06-8": "no leading-dot mantissa with exponent -> `.ddde±N` renderings",
+ "C08-8": "C08 observed only the mutable path and never two identical operands -> read-only path with effect log and H2 schedule; duplicated operands in the corpus",
+ "C08-9": "shadowing user functions never failed -> failing user functions named like builtins",
+ "C09-7": "same -> third user-function mode 'present but failing' in the matrix",
+ "C09-8": "no three-argument call form -> `n(true, x, y)`",
+ "C11-7": "corpus had identifier targets only -> any token sequence that precompiles, projection decided by the H2 hook (assignment application reached in the mutable run)",
+ "C11-8": "typed read-only entry points were C12's business only -> C12's checker also runs inside C11 on typed programs and snippets",
+ "C11-9": "same, numeric-looking strings",
+ "C13-7": "confirmation evaluated only through the mutable path -> read-only path first",
+ "C13-8": "no string literal containing parentheses and escaped quotes in the alphabets -> added",
+ "C13-9": "ill-formed sequences were rendered single-spaced only -> tightest rendering as well",
+ "C14-7": "iterators were only collected -> partially advanced iterators finished through for_each / fold / last / count / nth",
+ "C14-9": "renaming never went through source text -> renamed source must precompile to the iterator-renamed tree; `_<digits>` names",
+ "C16-7": "no byte-order mark / zero-width prefixes in the strings -> added",
  "C16-5": "no failing deserializations; the transport self-check went through evalexpr's own Value -> damaged inputs interleaved, harness-owned mirror type for the self-check",
 }
 out = ["# Seeded changes (independent sub-agents) and what catches them\n",
